@@ -1507,7 +1507,17 @@ pub fn run_idle(focus: &'static str, seed: u64, index: u64) -> CaseOut {
         } else { sched().release(Site::WorkerDequeued); client.settle_all(&marks); counts.inc("window_not_entered"); }
         sched().max_gate_hold_ms.store(3_000, Ordering::SeqCst);
     } else {
+        // ten recorded hits of key 1 before the quiet period: ageing is a matter of recorded accesses (100 here), not of elapsed time
+        for _ in 0..12 { let _ = sut.cache.get(&1); }
+        let _ = sut.quiesce();
         thread::sleep(Duration::from_secs(62));
+        for _ in 0..6 { let _ = sut.cache.get(&1); }
+        let _ = sut.quiesce();
+        let estimate = sut.cache.verif_estimate(&1) as u64;
+        if sut.stat(StatsType::AccessDropped) == 0 && estimate < 15 {
+            fail(&mut findings, &["C14"], "C14/estimate-under-counts/after-a-long-quiet-period".into(), format!("key 1 was read 18 times (at most 2 still buffered, none dropped, 100 counters: no ageing is due) but its estimate after 62 quiet seconds is {}", estimate), case.clone());
+        }
+        counts.inc("estimates_checked_after_62_s_of_quiet");
         let mut after = Client::new(3);
         let v = after.token(5);
         after.write(&sut.cache, WriteOp::PutW { key: 5, value: v, weight: 10 });
